@@ -6,6 +6,7 @@ Delete — they are not. Property theorems only (model: Model/Mpt/Cache.lean, le
 import NeoModel.Props.C10Lazy
 import NeoModel.Proofs.MptCache
 import NeoModel.Proofs.MptNibKeys
+import NeoModel.Proofs.MptDecode
 namespace NeoModel.C10
 open NeoModel.Mpt
 
@@ -81,5 +82,75 @@ theorem non_nibble_key_deviation (S : LStore) (h data : Bytes) (n : PNode) (hs :
 -- read through it finds nothing
 example : (decodeTop [1, 1, 0x1f, 2, 1, 7]).isSome = true ∧ ((decodeTop [1, 1, 0x1f, 2, 1, 7]).bind ofP).isNone = true ∧
     walkNode (fun _ _ => .notFound) (.ext [0x1f] (.leaf [7])) [1, 15] = .notFound := by decide
+
+/-! ## 19. a value longer than MaxValueLength: accepted by PutBatch, written by Flush, never loaded again
+
+DEFECT of /repo found by this check and repaired by 7a41699 (known-findings.txt, `fixed:`
+`batch-oversized-value-unreadable`): `Trie.Put` and the leaf decoder (leaf.go) refuse a value longer than
+`MaxValueLength`, `Trie.PutBatch` — the path of every block — does not check, and native contracts write
+items without the contract storage limit (a ContractManagement contract state reaches ~128 KB). With
+`MaxValueLength` = 65539 such items were flushed and could never be loaded again; the repair raised it to
+3 + stackitem.MaxSize + 1 = 131074, above everything a native can store (`native_value_reloads` below).
+What remains true for ANY limit, because PutBatch still does not check — the model mirrors the code: `putBatch` / `lputBatch` take any value,
+`lflush` writes the leaf, and … -/
+
+/-- … the record of such a leaf does not decode (node.go → leaf.go:45 "leaf node value is too big"), so
+over ANY store holding it a HashNode for it cannot be loaded: after Collapse / reopen / restart the key
+is unreadable (Get: not found; GetProof, Find, Put, PutBatch through it: error), although the same
+trie answered it while the leaf was in memory, and the root commits to it. The hypothesis `Bounded t`
+of `lazy_flush` / `lazy_run` is exactly what excludes this; `lazy_run_limits` derives it from the size
+limits on the operations, which PutBatch does not enforce. -/
+theorem oversized_value_unloadable (H : Bytes → Bytes) (S : LStore) (v : Val) (tail : Bytes)
+    (hbig : v.length > maxValueLength) (h64 : v.length < 2 ^ 64)
+    (hs : S (H (encLeaf v)) = some (encLeaf v ++ tail)) :
+    decodeTop (encLeaf v ++ tail) = none ∧ resolve S (H (encLeaf v)) = none ∧
+    (∀ f p, lget S (f + 1) (.hash (H (encLeaf v))) p = none) ∧
+    (∀ f p w, lput S (f + 1) (.hash (H (encLeaf v))) p w = (.hash (H (encLeaf v)), true)) := by
+  have hd : decodeTop (encLeaf v ++ tail) = none := by
+    have hr := read_varBytes v tail h64
+    simp only [varBytes, List.append_assoc] at hr
+    simp [decodeTop, maxPathLength, decode, encLeaf, varBytes, hr, hbig]
+  have hres : resolve S (H (encLeaf v)) = none := by simp [resolve, hs, hd]
+  exact ⟨hd, hres, fun f p => by simp [lget, hres], fun f p w => by simp [lput, hres]⟩
+
+/-- … while PutBatch takes it: the batch code has no length check at all (a value of any length ends
+up as a leaf of the new trie and is read back from memory). -/
+theorem putBatch_accepts_any_value (t : Node) (p : Path) (v : Val) :
+    lookup (putBatch t [(p, some v)]) p = some v := by
+  rw [lookup_putBatch _ _ (by simp [DistinctKeys])]
+  simp [applyBatch, List.lookup]
+
+-- non-vacuity: every length from 65540 (the first one PutBatch takes and the decoder refuses) on
+example (n : Nat) (h1 : n > maxValueLength) (h2 : n < 2 ^ 64) :
+    resolve (fun _ => some (encLeaf (List.replicate n 0) ++ [])) (toyH (encLeaf (List.replicate n 0))) = none :=
+  (oversized_value_unloadable toyH _ (List.replicate n 0) [] (by rw [List.length_replicate]; exact h1)
+    (by rw [List.length_replicate]; exact h2) rfl).2.1
+
+/-- what the repair 7a41699 achieves: `MaxValueLength = 3 + stackitem.MaxSize + 1 = 131074`, so every
+value a native contract can store (a serialised stack item, ≤ stackitem.MaxSize = 131070 bytes) is
+within the limit of the leaf decoder: its flushed record loads back as the leaf … -/
+theorem native_value_reloads (H : Bytes → Bytes) (h32 : ∀ b, (H b).length = 32) (S : LStore) (v : Val)
+    (hv : v.length ≤ 131070) (hs : S (H (encLeaf v)) = some (encLeaf v)) :
+    v.length ≤ maxValueLength ∧ resolve S (H (encLeaf v)) = some (.leaf v) := by
+  have hle : v.length ≤ maxValueLength := by unfold maxValueLength; omega
+  exact ⟨hle, resolve_enc (H := H) h32 (.leaf v) (by simpa [Bounded] using hle) rfl hs⟩
+
+/-- … and a whole trie whose values natives wrote through PutBatch, once flushed, is read back
+completely after a reopen / restart (the case excluded before the repair is now inside `Bounded`). -/
+theorem native_values_reopen (H : Bytes → Bytes) (h32 : ∀ b, (H b).length = 32) (S : LStore) (l : LNode) (t : Node)
+    (hr : LRep H S l t) (hw : WF t)
+    (hlim : ∀ p v, lookup t p = some v → p.length ≤ maxPathLength ∧ v.length ≤ 131070)
+    (hcf : CollFree H (nodeEncs H t)) (F : Nat) (hF : 2 * height t + 3 ≤ F) (p : Path) :
+    (lget (lflush H S l) F (lreopen H l) p).map (·.2) = lookup t p := by
+  have hb : Bounded t := bounded_of_contents t hw (fun p v h => ⟨(hlim p v h).1, by
+    have := (hlim p v h).2; unfold maxValueLength; omega⟩)
+  obtain ⟨hst, hrep⟩ := lazy_flush h32 l t hr hb hcf
+  have hro := (lazy_collapse l t 0 hrep hst).2
+  obtain ⟨h1, h2⟩ := lazy_get F (lreopen H l) t p hro hF
+  cases hl : lookup t p with
+  | none => simp [h2 hl]
+  | some v =>
+    obtain ⟨l', hg, _⟩ := h1 v hl
+    simp [hg]
 
 end NeoModel.C10
